@@ -548,7 +548,7 @@ func runRD(t *vlib.T) {
 func main() {
 	vlib.Main(vlib.Spec{
 		ID: "C16", Level: "exploration",
-		Rule: "bounded-exhaustive: (rt) the full product of 15 names x 19 sources x 7 LastModified x 4 CompileTime x 5 AST sections (lengths 0, 1, 255, 256, 257, 4096, 4097, 65535, 65536, 65537, 70000, 1 MiB, thorough also 2^24-1, 2^24, 2^24+1, 64 MiB; all 256 byte values, NUL, non-UTF-8, '/', data that looks like a serialisation) through Serialize -> Deserialize with a second value serialised in between; (rd) every corpus source (spaced and tight) and every single-lexeme mutation of it x 5 engine configurations x 5 ways of loading the compiled form x included templates source/compiled x 3 names, rendered on 3 contexts and compared with an engine given the source; (hist) every sequence of 2-4 (thorough 5) serialisations over 8 sizes with all results held; (sv) every history of 2 or 3 different versions of one template name (4 sources, neighbours differ) saved by CompiledLoader.SaveCompiled into ONE directory x 3 ways the first version reaches the engine x 14 ways per later version (RegisterString again / new engine with a time-reporting loader / loader without times; template modification time older, equal, newer than the existing file's or zero; file left as written or moved in time with os.Chtimes) x 2 names (quick: 3-version histories under one name) - after every save the file, CompiledLoader.Load and two fresh engines on the directory must give the version saved last; (al) the compiled bytes lie in a buffer of the caller that is overwritten after loading: 3 ways of loading (Deserialize then register afterwards / Deserialize + Register / LoadFromCompiledData on two engines) x overwritten at once or after a first render x 5 overwrites (zero, '#', complement, shifted by one byte, the next compiled file of the same size) x 3 source shapes (text only, tags at start/middle/end, dense tags) x source sizes 10, 4095, 4096, 4097, 8192, 65536 (thorough 13 sizes up to 1 MiB) x name sizes short, 4095, 4096, 8192 (thorough also 4097, 65536) - afterwards the deserialised value must still hold name, source and both timestamps, and the engine must render the three contexts like the source and compile back to the source; (alseq) ONE read buffer for several compiled files in a row, nothing overwritten on purpose: every sequence of 2-3 (thorough 4) files over those six sizes x Deserialize / LoadFromCompiledData x short / 4096+i-byte names, everything held and checked after the last file; (alldr) the same sequences written by CompiledLoader.SaveCompiled and read back by ONE CompiledLoader value and one engine; (mg) values that carry the magic numbers of compression / container formats and of the compiled format itself: 49 signatures (gzip 1f 8b bare / 3 bytes / valid header / complete streams of OTHER template text at two levels, with a file name, of the empty string, of 5000 bytes, cut short, doubled; zlib 78 01/5e/9c/da and a complete stream, a raw deflate stream; zstd magic, skippable frame, empty and complete frame; bzip2 BZh, block magic, empty and complete stream; xz, lz4, snappy, compress, lzip, zip, 7z signatures and complete xz / lz4 streams; byte order marks; this library's version byte 01 / 00 / 02, a complete, a cut and a version-2 compiled file, a bare length prefix; the old gob encoding of a compiled template, its type header, the gob AST section) x position (the whole value / at the start / in the middle / at the end) x filling (compressible text with print tags / incompressible noise with print tags) x total size (short, 1023, 1024, 1025, 5000, 70000; thorough 16 sizes 255 ... 1 MiB, the last through the round trip only) x where (source / name / both) x {Serialize -> Deserialize field-wise with 2 timestamp patterns; render twins via LoadFromCompiledData, Deserialize + Register, Template.SaveCompiled, the compiled loader's file (names a directory entry can hold) on the default engine (thorough: 4 configurations)}. Non-trivial = rt: name or source non-empty; rd: the source parses and at least one of the three reference renders succeeds (so output bytes are compared, not just error-ness); hist and sv: every case (each holds >= 2 results / overwrites a file at least once); al: at least one reference render succeeds and the overwrite changed the buffer (asserted); alseq and alldr: every case (>= 2 files through one buffer / loader); mg: rt every case (the value is never empty), rd as above",
+		Rule: "bounded-exhaustive: (rt) the full product of 15 names x 19 sources x 7 LastModified x 4 CompileTime x 5 AST sections (lengths 0, 1, 255, 256, 257, 4096, 4097, 65535, 65536, 65537, 70000, 1 MiB, thorough also 2^24-1, 2^24, 2^24+1, 64 MiB; all 256 byte values, NUL, non-UTF-8, '/', data that looks like a serialisation) through Serialize -> Deserialize with a second value serialised in between; (rd) every corpus source (spaced and tight) and every single-lexeme mutation of it x 5 engine configurations x 5 ways of loading the compiled form x included templates source/compiled x 3 names, rendered on 3 contexts and compared with an engine given the source; (hist) every sequence of 2-4 (thorough 5) serialisations over 8 sizes with all results held; (sv) every history of 2 or 3 different versions of one template name (4 sources, neighbours differ) saved by CompiledLoader.SaveCompiled into ONE directory x 3 ways the first version reaches the engine x 14 ways per later version (RegisterString again / new engine with a time-reporting loader / loader without times; template modification time older, equal, newer than the existing file's or zero; file left as written or moved in time with os.Chtimes) x 2 names (quick: 3-version histories under one name) - after every save the file, CompiledLoader.Load and two fresh engines on the directory must give the version saved last; (al) the compiled bytes lie in a buffer of the caller that is overwritten after loading: 3 ways of loading (Deserialize then register afterwards / Deserialize + Register / LoadFromCompiledData on two engines) x overwritten at once or after a first render x 5 overwrites (zero, '#', complement, shifted by one byte, the next compiled file of the same size) x 3 source shapes (text only, tags at start/middle/end, dense tags) x source sizes 10, 4095, 4096, 4097, 8192, 65536 (thorough 13 sizes up to 1 MiB) x name sizes short, 4095, 4096, 8192 (thorough also 4097, 65536) - afterwards the deserialised value must still hold name, source and both timestamps, and the engine must render the three contexts like the source and compile back to the source; (alseq) ONE read buffer for several compiled files in a row, nothing overwritten on purpose: every sequence of 2-3 (thorough 4) files over those six sizes x Deserialize / LoadFromCompiledData x short / 4096+i-byte names, everything held and checked after the last file; (alldr) the same sequences written by CompiledLoader.SaveCompiled and read back by ONE CompiledLoader value and one engine; (mg) values that carry the magic numbers of compression / container formats and of the compiled format itself: 49 signatures (gzip 1f 8b bare / 3 bytes / valid header / complete streams of OTHER template text at two levels, with a file name, of the empty string, of 5000 bytes, cut short, doubled; zlib 78 01/5e/9c/da and a complete stream, a raw deflate stream; zstd magic, skippable frame, empty and complete frame; bzip2 BZh, block magic, empty and complete stream; xz, lz4, snappy, compress, lzip, zip, 7z signatures and complete xz / lz4 streams; byte order marks; this library's version byte 01 / 00 / 02, a complete, a cut and a version-2 compiled file, a bare length prefix; the old gob encoding of a compiled template, its type header, the gob AST section) x position (the whole value / at the start / in the middle / at the end) x filling (compressible text with print tags / incompressible noise with print tags) x total size (short, 1023, 1024, 1025, 5000, 70000; thorough 16 sizes 255 ... 1 MiB, the last through the round trip only) x where (source / name / both) x {Serialize -> Deserialize field-wise with 2 timestamp patterns; render twins via LoadFromCompiledData, Deserialize + Register, Template.SaveCompiled, the compiled loader's file (names a directory entry can hold) on the default engine (thorough: 4 configurations)}; (ru) ONE *CompiledTemplate value registered more than once: every ordered sequence of 2 or 3 different engines out of 4 (differing in a global, a custom filter and function, strict variables, the templates include / extends / import resolve to; two configured alike) x 9 sources x 3 origins of the value (CompileTemplate, Deserialize, hand-built struct), every engine compared with an identically configured engine given the source after all registrations; and every history of 2 or 3 (name, source) pairs (2 names x 3 sources, neighbours differ) written into the value's exported fields between registrations on one engine x 3 origins x 2 engines, compared after every registration with an engine given the same pairs by RegisterString. Non-trivial = rt: name or source non-empty; rd: the source parses and at least one of the three reference renders succeeds (so output bytes are compared, not just error-ness); hist and sv: every case (each holds >= 2 results / overwrites a file at least once); al: at least one reference render succeeds and the overwrite changed the buffer (asserted); alseq and alldr: every case (>= 2 files through one buffer / loader); ru: at least one reference render succeeds (every case registers one value >= 2 times); mg: rt every case (the value is never empty), rd as above",
 		Assumptions: []string{
 			"sources and names of 4 GiB and more (beyond the 32-bit length prefix) are not explored",
 			"the error TEXT of a failing render / registration is not compared, only that both sides fail",
@@ -561,7 +561,7 @@ func main() {
 		},
 		QuickDeadline: 150, ThoroughDeadline: 840,
 		Run: func(t *vlib.T) {
-			// C16_FAMILIES=rd,rt,mg,al,alseq,hist,sv restricts a development run to some families
+			// C16_FAMILIES=rd,rt,mg,al,alseq,hist,sv,ru restricts a development run to some families
 			// (alseq includes alldr); unset = everything, which is what run.sh does
 			want := func(f string) bool {
 				v := os.Getenv("C16_FAMILIES")
@@ -570,7 +570,7 @@ func main() {
 			for _, f := range []struct {
 				id  string
 				run func(*vlib.T)
-			}{{"rd", runRD}, {"rt", runRT}, {"mg", runMagic}, {"al", runAlias}, {"alseq", runAliasSeq}, {"hist", runHist}, {"sv", runSave}} {
+			}{{"rd", runRD}, {"rt", runRT}, {"mg", runMagic}, {"al", runAlias}, {"alseq", runAliasSeq}, {"hist", runHist}, {"sv", runSave}, {"ru", runReuse}} {
 				if want(f.id) {
 					f.run(t)
 				}
